@@ -1,6 +1,7 @@
 package rules
 
 import (
+	"go/token"
 	"fmt"
 	"sort"
 	"strings"
@@ -283,16 +284,17 @@ func runLoopOrder(c *core.Ctx) {
 	}
 	c.CountFuncs(1)
 	var outer, inner *ssa.Select
-	an.Instrs(serve, func(in ssa.Instruction) {
-		sel, ok := in.(*ssa.Select)
+	var innerOcc an.Occ
+	an.Region(serve, nil, func(o an.Occ) {
+		sel, ok := o.In.(*ssa.Select)
 		if !ok {
 			return
 		}
 		for _, st := range sel.States {
-			if isClientMsgChan(st.Chan.Type()) {
+			if isClientMsgChan(st.Chan.Type()) && len(o.Chain) == 0 {
 				outer = sel
-			} else if strings.Contains(an.PathOf(st.Chan), "ServeNostrClientMsg") {
-				inner = sel
+			} else if strings.Contains(o.Path(st.Chan), "ServeNostrClientMsg") {
+				inner, innerOcc = sel, o
 			}
 		}
 	})
@@ -300,26 +302,98 @@ func runLoopOrder(c *core.Ctx) {
 		c.Unknown(nil, fname(c, serve), "drain-before-next", P.Pos(serve.Pos()), "request loop / reply-drain loop not recognised")
 		return
 	}
-	// the only way from the drain select back to the request select is the closed edge of the drain receive
+	drain := inner.Parent()
+	// the edge taken when the reply channel is closed
 	var cut []an.Edge
-	an.Instrs(serve, func(in ssa.Instruction) {
+	an.Instrs(drain, func(in ssa.Instruction) {
 		if iff, ok := in.(*ssa.If); ok {
-			if e, ok := iff.Cond.(*ssa.Extract); ok && e.Tuple == ssa.Value(inner) && e.Index == 1 {
-				cut = append(cut, an.Edge{From: iff.Block(), To: iff.Block().Succs[1]})
+			cd := an.NormCond(an.Cond{V: iff.Cond, True: true})
+			if e, ok := cd.V.(*ssa.Extract); ok && e.Tuple == ssa.Value(inner) && e.Index == 1 {
+				closedSucc := 1
+				if !cd.True {
+					closedSucc = 0
+				}
+				cut = append(cut, an.Edge{From: iff.Block(), To: iff.Block().Succs[closedSucc]})
 			}
 		}
 	})
-	good := len(cut) == 1 && !an.Reachable(inner.Block(), outer.Block(), cut, nil) && an.Reachable(inner.Block(), outer.Block(), nil, nil)
+	good := false
+	if drain == serve {
+		// the only way from the drain select back to the request select is the closed edge of the drain receive
+		good = len(cut) == 1 && !an.Reachable(inner.Block(), outer.Block(), cut, nil) && an.Reachable(inner.Block(), outer.Block(), nil, nil)
+	} else if len(innerOcc.Chain) == 1 && len(cut) == 1 {
+		// the drain loop lives in a private helper: the helper comes back before the channel
+		// is closed only with a verdict that makes the caller leave (session ended)
+		site := innerOcc.Chain[0]
+		good = true
+		early := 0
+		for _, rb := range an.ReturnBlocks(drain) {
+			if !an.Reachable(inner.Block(), rb, cut, nil) {
+				continue // reached only after the channel was closed
+			}
+			early++
+			rv := an.ReturnValues(an.LastInstr(rb).(*ssa.Return))
+			if len(rv) != 1 {
+				good = false
+				continue
+			}
+			// assume that verdict at the call site: the request select must be out of reach
+			fr := an.NoSubject()
+			switch {
+			case isConstBool(rv[0], true):
+				fr.Assume = map[ssa.Value]bool{ssa.Value(site): true}
+			case isConstBool(rv[0], false):
+				fr.Assume = map[ssa.Value]bool{ssa.Value(site): false}
+			default:
+				// an error: non-nil
+				fr.Assume = map[ssa.Value]bool{}
+				if site.Referrers() != nil {
+					for _, r := range *site.Referrers() {
+						if bin, isBin := r.(*ssa.BinOp); isBin && an.IsNilConst(bin.Y) {
+							fr.Assume[bin] = bin.Op == token.NEQ
+						}
+					}
+				}
+				if len(fr.Assume) == 0 || an.IsNilConst(rv[0]) {
+					good = false
+				}
+			}
+			var pruned []an.Edge
+			an.Instrs(serve, func(in ssa.Instruction) {
+				iff, isIf := in.(*ssa.If)
+				if !isIf {
+					return
+				}
+				// conditions fixed by the assumed verdict (folding && / || through their blocks)
+				t, f, known := fr.EvalBool(iff.Cond, an.Path{iff.Block()})
+				if !known {
+					return
+				}
+				if !t {
+					pruned = append(pruned, an.Edge{From: iff.Block(), To: iff.Block().Succs[0]})
+				}
+				if !f {
+					pruned = append(pruned, an.Edge{From: iff.Block(), To: iff.Block().Succs[1]})
+				}
+			})
+			if an.Reachable(site.Block(), outer.Block(), pruned, nil) {
+				good = false
+			}
+		}
+		if !an.Reachable(site.Block(), outer.Block(), nil, nil) {
+			good = false
+		}
+	}
 	// and the drain forwards every reply it receives
 	fwd := false
-	for _, ci := range calls(serve) {
-		if call, ok := ci.(*ssa.Call); ok && strings.HasSuffix(an.CalleeName(&call.Call), "sendServerMsgCtx") {
-			if strings.HasPrefix(an.PathOf(call.Call.Args[2]), "select#") && an.PathOf(call.Call.Args[1]) == "p:"+serve.Params[2].Name() {
+	an.Region(serve, nil, func(o an.Occ) {
+		if call, ok := o.In.(*ssa.Call); ok && strings.HasSuffix(an.CalleeName(&call.Call), "sendServerMsgCtx") {
+			if strings.HasPrefix(an.PathOf(call.Call.Args[2]), "select#") && o.Path(call.Call.Args[1]) == "p:"+serve.Params[2].Name() {
 				fwd = true
 			}
 		}
-	}
-	c.Check(good && fwd, nil, fname(c, serve), "drain-before-next", P.Pos(inner.Pos()),
+	})
+	c.Check(good && fwd, nil, fname(c, serve), "drain-before-next", P.Pos(innerOcc.Site().Pos()),
 		"the next request is received only after the reply channel of the current one was closed (or the session ended); every drained reply is sent on",
 		fmt.Sprintf("the request loop can receive the next message before the current reply channel is drained (closed-edge only: %v, replies forwarded: %v): replies of different requests can interleave or be lost", good, fwd))
 }
